@@ -1316,8 +1316,10 @@ impl InterfaceInner {
                         // Save the number of bytes we will send now.
                         frag.sent_bytes = first_frag_ip_len;
 
-                        // Emit the IP header to the buffer.
-                        emit_ip(&ip_repr, &mut frag.buffer);
+                        // Emit the IP header to the buffer. Only hand out as much of the
+                        // buffer as the packet needs: some payloads (ICMP) compute their
+                        // checksum over the whole buffer they are given.
+                        emit_ip(&ip_repr, &mut frag.buffer[..total_ip_len]);
 
                         let mut ipv4_packet = Ipv4Packet::new_unchecked(&mut frag.buffer[..]);
                         frag.ipv4.ident = ipv4_id;
